@@ -1,24 +1,32 @@
 package main
 
-// Translator table for C07: the shape of the stamping code of pkg/action/validate.go, read out
-// of the source with go/ast on every run, as coq/Gen/StampTable.v:
-//   - the four string constants (label / annotation keys, the value Helm);
-//   - mergeStrStrMaps: its parameter names and, in order, the maps whose entries it assigns to
-//     the result (`for k, v := range m { result[k] = v }`, also when the maps are ranged from one
-//     slice literal);
-//   - mergeLabels / mergeAnnotations: the identifiers they pass to mergeStrStrMaps, in order, and
-//     the accessor they read the first one from;
-//   - setMetadataVisitor: the literal maps it passes to mergeLabels / mergeAnnotations
-//     (constant or parameter names);
+// Translator table for C07: WHAT the stamping code of pkg/action/validate.go computes, read out of
+// the source with go/ast on every run by a small symbolic evaluation (not by matching one
+// spelling), as coq/Gen/StampTable.v:
+//   - mergeStrStrMaps(p1, p2): the order in which its two parameters are copied into the result
+//     (merge_params are the canonical positional names current / desired, merge_loops the copy order);
+//   - setMetadataVisitor: for the labels and for the annotations, the map that finally reaches
+//     accessor.SetLabels / SetAnnotations, as a sequence of sources (the object's own map read through
+//     the accessor, a map literal); from it the literal maps (visitor_maps) and which source plays
+//     which parameter of the merge (merge_calls);
+//   - the constants the literals name (stamp_consts);
 //   - the `force` argument at every call site of setMetadataVisitor in pkg/action.
-// Props/C07.v states that the table is the expected one and that the merge it describes,
-// interpreted (Engine/Stamp.v merge_by_table), IS the model's merge_str_str_maps / stamp_meta.
+// The evaluation follows local variables to their definition anywhere in the enclosing functions
+// (hoisted maps), reads `for k, v := range m { r[k] = v }`, a loop over a slice of maps,
+// maps.Copy(dst, src), maps.Clone(m) and make (pre-sized or not) as copies into a fresh map,
+// inlines same-package helpers (bounded depth) and does not depend on the order of independent
+// statements, on parameter or constant NAMES (canonical names by position / by value).
+// The table is ALWAYS emitted: whatever cannot be interpreted becomes a row `Unknown "<text>"`
+// (also collected in stamp_table_unknowns), which fails an obligation of Props/C07.v with that
+// text — never a missing definition.
+// Props/C07.v: the table is the expected one, and the merge / the stamping it describes,
+// interpreted (Engine/StampTableSem.v), ARE the model's merge_str_str_maps / stamp_meta.
 
 import (
 	"fmt"
 	"go/ast"
 	"go/token"
-	"os"
+	"go/types"
 	"path/filepath"
 	"sort"
 	"strings"
@@ -28,13 +36,259 @@ import (
 
 func init() { registerTable("StampTable", genStampTable) }
 
-func c07FuncDecl(f *ast.File, name string) *ast.FuncDecl {
-	for _, d := range f.Decls {
-		if fd, ok := d.(*ast.FuncDecl); ok && fd.Name.Name == name && fd.Recv == nil {
-			return fd
+// ---- symbolic values ----
+
+type c07Map struct {
+	Kind  string      // lit param accessor merge unknown
+	Name  string      // param / accessor name
+	Pairs [][2]string // lit
+	Parts []*c07Map   // merge: copied in this order into a fresh map
+	Text  string      // unknown
+}
+
+func c07Unknown(format string, a ...any) *c07Map {
+	return &c07Map{Kind: "unknown", Text: fmt.Sprintf(format, a...)}
+}
+
+// flatten: the sequence of sources copied, in order
+func (m *c07Map) flatten() []*c07Map {
+	if m == nil {
+		return nil
+	}
+	if m.Kind != "merge" {
+		return []*c07Map{m}
+	}
+	var out []*c07Map
+	for _, p := range m.Parts {
+		out = append(out, p.flatten()...)
+	}
+	return out
+}
+
+type c07Env struct {
+	maps    map[string]*c07Map
+	scalars map[string]string
+}
+
+func c07NewEnv() *c07Env { return &c07Env{maps: map[string]*c07Map{}, scalars: map[string]string{}} }
+
+// one call of accessor.SetLabels / SetAnnotations
+type c07Effect struct {
+	Setter string
+	Val    *c07Map
+}
+
+type c07Eval struct {
+	funcs    map[string]*ast.FuncDecl
+	consts   map[string]string // package-level string constants
+	used     map[string]string // canonical constant name -> value, as met during the evaluation
+	extra    []string          // uninterpretable constructs that end up in no cell
+}
+
+// canonical names of the constants, by VALUE (so that renaming a constant changes nothing)
+var c07CanonConst = map[string]string{
+	"app.kubernetes.io/managed-by":   "appManagedByLabel",
+	"Helm":                           "appManagedByHelm",
+	"meta.helm.sh/release-name":      "helmReleaseNameAnnotation",
+	"meta.helm.sh/release-namespace": "helmReleaseNamespaceAnnotation",
+}
+
+func c07Text(n ast.Node) string {
+	if e, ok := n.(ast.Expr); ok {
+		s := types.ExprString(e)
+		if len(s) > 120 {
+			s = s[:120] + "..."
+		}
+		return s
+	}
+	return fmt.Sprintf("%T", n)
+}
+
+// unknownRow formats a table cell for something the translator cannot interpret; cells are
+// collected into stamp_table_unknowns when the table is printed
+func (ev *c07Eval) unknownRow(format string, a ...any) string {
+	return "Unknown \"" + strings.ReplaceAll(fmt.Sprintf(format, a...), "\"", "'") + "\""
+}
+
+func c07ReturnsMap(fd *ast.FuncDecl) bool {
+	if fd.Type.Results == nil {
+		return false
+	}
+	for _, fl := range fd.Type.Results.List {
+		if c07IsMapType(fl.Type) {
+			return true
 		}
 	}
+	return false
+}
+
+func (ev *c07Eval) constName(value, srcName string) string {
+	n, ok := c07CanonConst[value]
+	if !ok {
+		n = srcName
+		if n == "" {
+			n = "lit:" + value
+		}
+	}
+	ev.used[n] = value
+	return n
+}
+
+// a string-valued expression: a constant (canonical name), a parameter bound by the caller, a literal
+func (ev *c07Eval) scalar(e ast.Expr, env *c07Env) string {
+	switch x := e.(type) {
+	case *ast.ParenExpr:
+		return ev.scalar(x.X, env)
+	case *ast.BasicLit:
+		if s, ok := strLit(x); ok {
+			return ev.constName(s, "")
+		}
+	case *ast.Ident:
+		if s, ok := env.scalars[x.Name]; ok {
+			return s
+		}
+		if v, ok := ev.consts[x.Name]; ok {
+			return ev.constName(v, x.Name)
+		}
+	}
+	return ev.unknownRow("string expression %s", c07Text(e))
+}
+
+func c07IsMapType(e ast.Expr) bool {
+	_, ok := e.(*ast.MapType)
+	return ok
+}
+
+func c07Sel(e ast.Expr) (string, string, bool) {
+	se, ok := e.(*ast.SelectorExpr)
+	if !ok {
+		return "", "", false
+	}
+	id, ok := se.X.(*ast.Ident)
+	if !ok {
+		return "", "", false
+	}
+	return id.Name, se.Sel.Name, true
+}
+
+const c07MaxDepth = 4
+
+// a map-valued expression; nil when the expression is not map-valued as far as we can tell
+func (ev *c07Eval) mapExpr(e ast.Expr, env *c07Env, depth int) *c07Map {
+	switch x := e.(type) {
+	case *ast.ParenExpr:
+		return ev.mapExpr(x.X, env, depth)
+	case *ast.Ident:
+		if m, ok := env.maps[x.Name]; ok {
+			return m
+		}
+		if x.Name == "nil" {
+			return &c07Map{Kind: "merge"}
+		}
+		return nil
+	case *ast.CompositeLit:
+		if !c07IsMapType(x.Type) {
+			return nil
+		}
+		m := &c07Map{Kind: "lit"}
+		for _, el := range x.Elts {
+			kv, ok := el.(*ast.KeyValueExpr)
+			if !ok {
+				return c07Unknown("map literal element %s", c07Text(el))
+			}
+			m.Pairs = append(m.Pairs, [2]string{ev.scalar(kv.Key, env), ev.scalar(kv.Value, env)})
+		}
+		return m
+	case *ast.CallExpr:
+		if id, ok := x.Fun.(*ast.Ident); ok {
+			if id.Name == "make" && len(x.Args) >= 1 && c07IsMapType(x.Args[0]) {
+				return &c07Map{Kind: "merge"} // fresh, empty (a size hint changes nothing)
+			}
+			if fd, ok := ev.funcs[id.Name]; ok && depth < c07MaxDepth && c07ReturnsMap(fd) {
+				ret, _ := ev.call(fd, x.Args, env, depth+1)
+				if ret == nil {
+					ret = c07Unknown("%s returns no map we can read", id.Name)
+				}
+				return ret
+			}
+		}
+		if pkg, fn, ok := c07Sel(x.Fun); ok && pkg == "maps" && fn == "Clone" && len(x.Args) == 1 {
+			if src := ev.mapExpr(x.Args[0], env, depth); src != nil {
+				return &c07Map{Kind: "merge", Parts: []*c07Map{src}}
+			}
+			return c07Unknown("maps.Clone(%s)", c07Text(x.Args[0]))
+		}
+		if pkg, fn, ok := c07Sel(x.Fun); ok && pkg == "accessor" && (fn == "Labels" || fn == "Annotations") {
+			return &c07Map{Kind: "accessor", Name: fn}
+		}
+		return nil
+	}
 	return nil
+}
+
+// call: evaluate a same-package function with the given arguments; its returned map (if any) and
+// the setter effects of its body
+func (ev *c07Eval) call(fd *ast.FuncDecl, args []ast.Expr, caller *c07Env, depth int) (*c07Map, []c07Effect) {
+	env := c07NewEnv()
+	i := 0
+	if fd.Type.Params != nil {
+		for _, fl := range fd.Type.Params.List {
+			for _, n := range fl.Names {
+				if i < len(args) {
+					if c07IsMapType(fl.Type) {
+						if m := ev.mapExpr(args[i], caller, depth); m != nil {
+							env.maps[n.Name] = m
+						} else {
+							env.maps[n.Name] = c07Unknown("argument %s", c07Text(args[i]))
+						}
+					} else if id, ok := fl.Type.(*ast.Ident); ok && id.Name == "string" {
+						env.scalars[n.Name] = ev.scalar(args[i], caller)
+					}
+				}
+				i++
+			}
+		}
+	}
+	if fd.Body == nil {
+		return nil, nil
+	}
+	return ev.block(fd.Body.List, env, depth)
+}
+
+// appendTo: dst receives a copy of every entry of src
+func c07AppendTo(env *c07Env, dst string, src *c07Map) {
+	cur, ok := env.maps[dst]
+	if !ok || cur.Kind != "merge" {
+		if ok {
+			cur = &c07Map{Kind: "merge", Parts: []*c07Map{cur}}
+		} else {
+			cur = &c07Map{Kind: "merge", Parts: []*c07Map{c07Unknown("copy into undefined map %s", dst)}}
+		}
+	} else {
+		cur = &c07Map{Kind: "merge", Parts: append([]*c07Map{}, cur.Parts...)}
+	}
+	cur.Parts = append(cur.Parts, src)
+	env.maps[dst] = cur
+}
+
+// `for k, v := range SRC { DST[k] = v }`: returns DST and SRC
+func c07CopyLoop(rs *ast.RangeStmt) (string, ast.Expr, bool) {
+	if rs.Body == nil || len(rs.Body.List) != 1 || rs.Key == nil || rs.Value == nil {
+		return "", nil, false
+	}
+	as, ok := rs.Body.List[0].(*ast.AssignStmt)
+	if !ok || as.Tok != token.ASSIGN || len(as.Lhs) != 1 || len(as.Rhs) != 1 {
+		return "", nil, false
+	}
+	ix, ok := as.Lhs[0].(*ast.IndexExpr)
+	if !ok {
+		return "", nil, false
+	}
+	dst, ok := ix.X.(*ast.Ident)
+	if !ok || c07Ident(ix.Index) != c07Ident(rs.Key) || c07Ident(as.Rhs[0]) != c07Ident(rs.Value) || c07Ident(rs.Key) == "?" {
+		return "", nil, false
+	}
+	return dst.Name, rs.X, true
 }
 
 func c07Ident(e ast.Expr) string {
@@ -44,98 +298,285 @@ func c07Ident(e ast.Expr) string {
 	return "?"
 }
 
-// assignsResult: the loop body is `result[key] = val` with the loop's own key/value variables
-func c07AssignsResult(rs *ast.RangeStmt) bool {
-	if rs.Body == nil || len(rs.Body.List) != 1 {
-		return false
-	}
-	as, ok := rs.Body.List[0].(*ast.AssignStmt)
-	if !ok || as.Tok != token.ASSIGN || len(as.Lhs) != 1 || len(as.Rhs) != 1 {
-		return false
-	}
-	ix, ok := as.Lhs[0].(*ast.IndexExpr)
-	if !ok || c07Ident(ix.X) != "result" {
-		return false
-	}
-	return c07Ident(ix.Index) == c07Ident(rs.Key) && c07Ident(as.Rhs[0]) == c07Ident(rs.Value)
-}
-
-// the maps mergeStrStrMaps copies into the result, in order
-func c07MergeLoops(fd *ast.FuncDecl) ([]string, error) {
-	var out []string
-	for _, st := range fd.Body.List {
-		rs, ok := st.(*ast.RangeStmt)
-		if !ok {
-			continue
-		}
-		if c07AssignsResult(rs) {
-			out = append(out, c07Ident(rs.X))
-			continue
-		}
-		// for _, m := range []map[string]string{a, b} { for k, v := range m { result[k] = v } }
-		cl, ok := rs.X.(*ast.CompositeLit)
-		if ok && rs.Body != nil && len(rs.Body.List) == 1 {
-			if inner, ok := rs.Body.List[0].(*ast.RangeStmt); ok && c07AssignsResult(inner) && c07Ident(inner.X) == c07Ident(rs.Value) {
-				for _, e := range cl.Elts {
-					out = append(out, c07Ident(e))
-				}
-				continue
-			}
-		}
-		return nil, fmt.Errorf("mergeStrStrMaps: a loop that is not `for k, v := range m { result[k] = v }`")
-	}
-	if len(out) == 0 {
-		return nil, fmt.Errorf("mergeStrStrMaps: no copy loop found")
-	}
-	return out, nil
-}
-
-// the call f(args...) anywhere in the function body (looking through a local variable)
-func c07FindCall(fd *ast.FuncDecl, callee string) *ast.CallExpr {
-	var found *ast.CallExpr
-	ast.Inspect(fd.Body, func(n ast.Node) bool {
-		if ce, ok := n.(*ast.CallExpr); ok && found == nil {
-			if id, ok := ce.Fun.(*ast.Ident); ok && id.Name == callee {
-				found = ce
-			}
-		}
+// onlyReturns: an error path (`if err != nil { return ... }`), nothing that concerns us
+func c07OnlyReturns(b *ast.BlockStmt) bool {
+	if b == nil {
 		return true
+	}
+	for _, s := range b.List {
+		if _, ok := s.(*ast.ReturnStmt); !ok {
+			return false
+		}
+	}
+	return true
+}
+
+// mentions: does the node call a setter, a copy, or a same-package function that could
+func (ev *c07Eval) mentions(n ast.Node, depth int) bool {
+	found := false
+	ast.Inspect(n, func(x ast.Node) bool {
+		ce, ok := x.(*ast.CallExpr)
+		if !ok || found {
+			return !found
+		}
+		if pkg, fn, ok := c07Sel(ce.Fun); ok && ((pkg == "accessor" && strings.HasPrefix(fn, "Set")) || (pkg == "maps" && fn == "Copy")) {
+			found = true
+		}
+		if id, ok := ce.Fun.(*ast.Ident); ok {
+			if fd, ok := ev.funcs[id.Name]; ok && fd.Body != nil && depth < c07MaxDepth && ev.mentions(fd.Body, depth+1) {
+				found = true
+			}
+		}
+		return !found
 	})
 	return found
 }
 
-// `current, err := accessor.Labels(obj)`: which accessor method feeds the named variable
-func c07AccessorOf(fd *ast.FuncDecl, v string) string {
-	out := "?"
-	ast.Inspect(fd.Body, func(n ast.Node) bool {
-		as, ok := n.(*ast.AssignStmt)
-		if !ok || len(as.Lhs) == 0 || len(as.Rhs) != 1 || c07Ident(as.Lhs[0]) != v {
-			return true
+// an expression evaluated for its effects (value ignored or an error)
+func (ev *c07Eval) effectsOf(e ast.Expr, env *c07Env, depth int) []c07Effect {
+	ce, ok := e.(*ast.CallExpr)
+	if !ok {
+		return nil
+	}
+	if pkg, fn, ok := c07Sel(ce.Fun); ok && pkg == "accessor" && (fn == "SetLabels" || fn == "SetAnnotations") && len(ce.Args) == 2 {
+		v := ev.mapExpr(ce.Args[1], env, depth)
+		if v == nil {
+			v = c07Unknown("argument of %s: %s", fn, c07Text(ce.Args[1]))
 		}
-		if ce, ok := as.Rhs[0].(*ast.CallExpr); ok {
-			if se, ok := ce.Fun.(*ast.SelectorExpr); ok && c07Ident(se.X) == "accessor" {
-				out = se.Sel.Name
+		return []c07Effect{{fn, v}}
+	}
+	if pkg, fn, ok := c07Sel(ce.Fun); ok && pkg == "maps" && fn == "Copy" && len(ce.Args) == 2 {
+		src := ev.mapExpr(ce.Args[1], env, depth)
+		if src == nil {
+			src = c07Unknown("maps.Copy source %s", c07Text(ce.Args[1]))
+		}
+		if dst, ok := ce.Args[0].(*ast.Ident); ok {
+			c07AppendTo(env, dst.Name, src)
+		}
+		return nil
+	}
+	if id, ok := ce.Fun.(*ast.Ident); ok {
+		if fd, ok := ev.funcs[id.Name]; ok && depth < c07MaxDepth && fd.Body != nil && ev.mentions(fd.Body, depth) {
+			_, eff := ev.call(fd, ce.Args, env, depth+1)
+			return eff
+		}
+	}
+	return nil
+}
+
+func (ev *c07Eval) assign(lhs []ast.Expr, rhs []ast.Expr, env *c07Env, depth int) []c07Effect {
+	if len(rhs) != 1 || len(lhs) == 0 {
+		// x, y := a, b
+		if len(rhs) == len(lhs) {
+			var eff []c07Effect
+			for i := range lhs {
+				eff = append(eff, ev.assign(lhs[i:i+1], rhs[i:i+1], env, depth)...)
+			}
+			return eff
+		}
+		return nil
+	}
+	name := c07Ident(lhs[0])
+	if m := ev.mapExpr(rhs[0], env, depth); m != nil {
+		if name != "?" && name != "_" {
+			env.maps[name] = m
+		}
+		// a helper called for its value may also have effects
+		return nil
+	}
+	switch x := rhs[0].(type) {
+	case *ast.BasicLit:
+		if s, ok := strLit(x); ok && name != "?" {
+			env.scalars[name] = ev.constName(s, "")
+		}
+		return nil
+	case *ast.Ident:
+		if s, ok := env.scalars[x.Name]; ok && name != "?" {
+			env.scalars[name] = s
+		}
+		return nil
+	}
+	// err := mergeLabels(obj, m)
+	return ev.effectsOf(rhs[0], env, depth)
+}
+
+// block: run the statements; the returned map (of a `return <map>`) and the setter effects
+func (ev *c07Eval) block(stmts []ast.Stmt, env *c07Env, depth int) (*c07Map, []c07Effect) {
+	var ret *c07Map
+	var eff []c07Effect
+	for _, st := range stmts {
+		switch s := st.(type) {
+		case *ast.AssignStmt:
+			if s.Tok == token.DEFINE || s.Tok == token.ASSIGN {
+				if ix, ok := s.Lhs[0].(*ast.IndexExpr); ok && len(s.Lhs) == 1 && len(s.Rhs) == 1 {
+					// dst[k] = v outside a copy loop: one entry
+					if dst, ok := ix.X.(*ast.Ident); ok {
+						c07AppendTo(env, dst.Name, &c07Map{Kind: "lit", Pairs: [][2]string{{ev.scalar(ix.Index, env), ev.scalar(s.Rhs[0], env)}}})
+						continue
+					}
+				}
+				eff = append(eff, ev.assign(s.Lhs, s.Rhs, env, depth)...)
+			}
+		case *ast.DeclStmt:
+			if gd, ok := s.Decl.(*ast.GenDecl); ok && gd.Tok == token.VAR {
+				for _, sp := range gd.Specs {
+					vs := sp.(*ast.ValueSpec)
+					for i, n := range vs.Names {
+						if i < len(vs.Values) {
+							eff = append(eff, ev.assign([]ast.Expr{n}, []ast.Expr{vs.Values[i]}, env, depth)...)
+						} else if vs.Type != nil && c07IsMapType(vs.Type) {
+							env.maps[n.Name] = &c07Map{Kind: "merge"}
+						}
+					}
+				}
+			}
+		case *ast.RangeStmt:
+			if dst, src, ok := c07CopyLoop(s); ok {
+				m := ev.mapExpr(src, env, depth)
+				if m == nil {
+					m = c07Unknown("range over %s", c07Text(src))
+				}
+				c07AppendTo(env, dst, m)
+				continue
+			}
+			// for _, m := range []map[string]string{a, b} { <copy loop over m> }
+			if cl, ok := s.X.(*ast.CompositeLit); ok && s.Body != nil && len(s.Body.List) == 1 && s.Value != nil {
+				if inner, ok := s.Body.List[0].(*ast.RangeStmt); ok {
+					if dst, src, ok := c07CopyLoop(inner); ok && c07Ident(src) == c07Ident(s.Value) {
+						for _, el := range cl.Elts {
+							m := ev.mapExpr(el, env, depth)
+							if m == nil {
+								m = c07Unknown("range over %s", c07Text(el))
+							}
+							c07AppendTo(env, dst, m)
+						}
+						continue
+					}
+				}
+			}
+			if ev.mentions(s, depth) || c07TouchesMaps(s, env) {
+				eff = append(eff, c07Effect{"?", c07Unknown("loop `for ... range %s`", c07Text(s.X))})
+			}
+		case *ast.ExprStmt:
+			eff = append(eff, ev.effectsOf(s.X, env, depth)...)
+		case *ast.IfStmt:
+			if c07NilGuard(s, env) {
+				continue // `if m == nil { m = make(map...) }`: a nil map has no entries, nothing changes
+			}
+			if s.Init != nil {
+				_, e2 := ev.block([]ast.Stmt{s.Init}, env, depth)
+				eff = append(eff, e2...)
+			}
+			bodyPlain := c07OnlyReturns(s.Body) || !(ev.mentions(s.Body, depth) || c07TouchesMaps(s.Body, env))
+			elsePlain := s.Else == nil || !(ev.mentions(s.Else, depth) || c07TouchesMaps(s.Else, env))
+			if !bodyPlain || !elsePlain {
+				eff = append(eff, c07Effect{"?", c07Unknown("conditional `if %s`", c07Text(s.Cond))})
+			}
+		case *ast.ReturnStmt:
+			for _, r := range s.Results {
+				if fl, ok := r.(*ast.FuncLit); ok { // the visitor closure: same scope
+					m, e2 := ev.block(fl.Body.List, env, depth)
+					eff = append(eff, e2...)
+					if m != nil && ret == nil {
+						ret = m
+					}
+					continue
+				}
+				if m := ev.mapExpr(r, env, depth); m != nil {
+					if ret == nil {
+						ret = m
+					}
+					continue
+				}
+				eff = append(eff, ev.effectsOf(r, env, depth)...)
+			}
+		case *ast.BlockStmt:
+			m, e2 := ev.block(s.List, env, depth)
+			eff = append(eff, e2...)
+			if m != nil && ret == nil {
+				ret = m
+			}
+		default:
+			if ev.mentions(st, depth) {
+				eff = append(eff, c07Effect{"?", c07Unknown("statement %T", st)})
 			}
 		}
-		return true
+	}
+	return ret, eff
+}
+
+// `if m == nil { m = make(map[K]V...) }` for a map we track
+func c07NilGuard(s *ast.IfStmt, env *c07Env) bool {
+	be, ok := s.Cond.(*ast.BinaryExpr)
+	if !ok || be.Op != token.EQL || s.Init != nil || s.Else != nil || s.Body == nil || len(s.Body.List) != 1 {
+		return false
+	}
+	name := c07Ident(be.X)
+	if c07Ident(be.Y) != "nil" {
+		return false
+	}
+	if _, ok := env.maps[name]; !ok {
+		return false
+	}
+	as, ok := s.Body.List[0].(*ast.AssignStmt)
+	if !ok || as.Tok != token.ASSIGN || len(as.Lhs) != 1 || len(as.Rhs) != 1 || c07Ident(as.Lhs[0]) != name {
+		return false
+	}
+	ce, ok := as.Rhs[0].(*ast.CallExpr)
+	return ok && c07Ident(ce.Fun) == "make" && len(ce.Args) >= 1 && c07IsMapType(ce.Args[0])
+}
+
+// a map literal (or a run of entry assignments) is a map: one value per key (the last one), no order
+var c07KeyRank = map[string]int{"appManagedByLabel": 0, "helmReleaseNameAnnotation": 1, "helmReleaseNamespaceAnnotation": 2}
+
+func c07NormPairs(ps [][2]string) [][2]string {
+	last := map[string]string{}
+	var keys []string
+	for _, p := range ps {
+		if _, ok := last[p[0]]; !ok {
+			keys = append(keys, p[0])
+		}
+		last[p[0]] = p[1]
+	}
+	sort.SliceStable(keys, func(i, j int) bool {
+		ri, oki := c07KeyRank[keys[i]]
+		rj, okj := c07KeyRank[keys[j]]
+		switch {
+		case oki && okj:
+			return ri < rj
+		case oki != okj:
+			return oki
+		}
+		return keys[i] < keys[j]
 	})
+	out := make([][2]string, 0, len(keys))
+	for _, k := range keys {
+		out = append(out, [2]string{k, last[k]})
+	}
 	return out
 }
 
-func c07MapLit(e ast.Expr) ([][2]string, bool) {
-	cl, ok := e.(*ast.CompositeLit)
-	if !ok {
-		return nil, false
-	}
-	var out [][2]string
-	for _, el := range cl.Elts {
-		kv, ok := el.(*ast.KeyValueExpr)
+// does the node assign into one of the maps we track (an entry or the variable)
+func c07TouchesMaps(n ast.Node, env *c07Env) bool {
+	found := false
+	ast.Inspect(n, func(x ast.Node) bool {
+		as, ok := x.(*ast.AssignStmt)
 		if !ok {
-			return nil, false
+			return !found
 		}
-		out = append(out, [2]string{c07Ident(kv.Key), c07Ident(kv.Value)})
-	}
-	return out, true
+		for _, l := range as.Lhs {
+			if ix, ok := l.(*ast.IndexExpr); ok {
+				if _, ok := env.maps[c07Ident(ix.X)]; ok {
+					found = true
+				}
+			}
+			if _, ok := env.maps[c07Ident(l)]; ok && as.Tok == token.ASSIGN {
+				found = true
+			}
+		}
+		return !found
+	})
+	return found
 }
 
 func c07CoqPairs(ps [][2]string) string {
@@ -147,139 +588,266 @@ func c07CoqPairs(ps [][2]string) string {
 }
 
 func genStampTable(repo string) (string, error) {
-	f, _, err := parseFile(repo, "pkg/action/validate.go")
-	if err != nil {
-		return "", err
-	}
-	var b strings.Builder
-	// constants
-	consts := map[string]string{}
-	for _, d := range f.Decls {
-		gd, ok := d.(*ast.GenDecl)
-		if !ok || gd.Tok != token.CONST {
+	ev := &c07Eval{funcs: map[string]*ast.FuncDecl{}, consts: map[string]string{}, used: map[string]string{}}
+	files, _ := filepath.Glob(filepath.Join(repo, "pkg/action/*.go"))
+	sort.Strings(files)
+	type site struct{ file, arg string }
+	var parsed []*ast.File
+	var names []string
+	for _, p := range files {
+		base := filepath.Base(p)
+		if strings.HasSuffix(base, "_test.go") || strings.HasPrefix(base, "zz_verif_") {
 			continue
 		}
-		for _, s := range gd.Specs {
-			vs := s.(*ast.ValueSpec)
-			for i, n := range vs.Names {
-				if i < len(vs.Values) {
-					if v, ok := strLit(vs.Values[i]); ok {
-						consts[n.Name] = v
+		f, _, err := parseFile(repo, "pkg/action/"+base)
+		if err != nil {
+			ev.extra = append(ev.extra, ev.unknownRow("%s does not parse: %v", base, err))
+			continue
+		}
+		parsed = append(parsed, f)
+		names = append(names, base)
+		for _, d := range f.Decls {
+			switch x := d.(type) {
+			case *ast.FuncDecl:
+				if x.Recv == nil {
+					ev.funcs[x.Name.Name] = x
+				}
+			case *ast.GenDecl:
+				if x.Tok != token.CONST {
+					continue
+				}
+				for _, s := range x.Specs {
+					vs := s.(*ast.ValueSpec)
+					for i, n := range vs.Names {
+						if i < len(vs.Values) {
+							if v, ok := strLit(vs.Values[i]); ok {
+								ev.consts[n.Name] = v
+							}
+						}
 					}
 				}
 			}
 		}
 	}
-	var cps [][2]string
-	for _, n := range []string{"appManagedByLabel", "appManagedByHelm", "helmReleaseNameAnnotation", "helmReleaseNamespaceAnnotation"} {
-		v, ok := consts[n]
-		if !ok {
-			return "", fmt.Errorf("validate.go: constant %s not found", n)
+
+	// ---- mergeStrStrMaps(p1, p2): the order in which the parameters are copied ----
+	params := []string{"current", "desired"} // canonical, by position
+	var loops []string
+	if ms := ev.funcs["mergeStrStrMaps"]; ms == nil || ms.Body == nil {
+		loops = []string{ev.unknownRow("mergeStrStrMaps not found in pkg/action")}
+	} else {
+		env := c07NewEnv()
+		i := 0
+		for _, fl := range ms.Type.Params.List {
+			for _, n := range fl.Names {
+				if i < 2 && c07IsMapType(fl.Type) {
+					env.maps[n.Name] = &c07Map{Kind: "param", Name: params[i]}
+				}
+				i++
+			}
 		}
-		cps = append(cps, [2]string{n, v})
+		if i != 2 || len(env.maps) != 2 {
+			loops = []string{ev.unknownRow("mergeStrStrMaps does not take two maps")}
+		} else {
+			ret, eff := ev.block(ms.Body.List, env, 0)
+			for _, e := range eff {
+				if e.Val != nil && e.Val.Kind == "unknown" {
+					loops = append(loops, ev.unknownRow("mergeStrStrMaps: %s", e.Val.Text))
+				}
+			}
+			if ret == nil {
+				loops = append(loops, ev.unknownRow("mergeStrStrMaps: no returned map"))
+			}
+			for _, p := range ret.flatten() {
+				switch p.Kind {
+				case "param":
+					loops = append(loops, p.Name)
+				case "unknown":
+					loops = append(loops, ev.unknownRow("mergeStrStrMaps: %s", p.Text))
+				default:
+					loops = append(loops, ev.unknownRow("mergeStrStrMaps copies a %s map", p.Kind))
+				}
+			}
+		}
+	}
+
+	// ---- setMetadataVisitor(name, namespace, force): what reaches SetLabels / SetAnnotations ----
+	calls := map[string][]string{}
+	vmaps := map[string][][2]string{}
+	setterOf := map[string]string{"mergeLabels": "SetLabels", "mergeAnnotations": "SetAnnotations"}
+	accOf := map[string]string{"mergeLabels": "Labels", "mergeAnnotations": "Annotations"}
+	var effects []c07Effect
+	if sv := ev.funcs["setMetadataVisitor"]; sv == nil || sv.Body == nil {
+		ev.extra = append(ev.extra, ev.unknownRow("setMetadataVisitor not found in pkg/action"))
+	} else {
+		env := c07NewEnv()
+		canon := []string{"releaseName", "releaseNamespace"}
+		i := 0
+		for _, fl := range sv.Type.Params.List {
+			for _, n := range fl.Names {
+				if id, ok := fl.Type.(*ast.Ident); ok && id.Name == "string" && i < 2 {
+					env.scalars[n.Name] = canon[i]
+					i++
+				}
+			}
+		}
+		_, effects = ev.block(sv.Body.List, env, 0)
+	}
+	for _, fn := range []string{"mergeLabels", "mergeAnnotations"} {
+		var mine []c07Effect
+		for _, e := range effects {
+			if e.Setter == setterOf[fn] {
+				mine = append(mine, e)
+			}
+		}
+		if len(mine) != 1 {
+			r := ev.unknownRow("setMetadataVisitor reaches accessor.%s %d times", setterOf[fn], len(mine))
+			calls[fn] = []string{r}
+			vmaps[fn] = [][2]string{{r, r}}
+			continue
+		}
+		parts := mine[0].Val.flatten()
+		// the sources, in copy order: exactly the object's own map and one literal
+		var roles []string
+		var lit *c07Map
+		for _, p := range parts {
+			switch {
+			case p.Kind == "accessor":
+				roles = append(roles, "object:"+p.Name)
+			case p.Kind == "lit" && lit == nil:
+				lit = p
+				roles = append(roles, "param")
+			case p.Kind == "lit": // two literals copied one after the other: one literal, later entries win
+				lit = &c07Map{Kind: "lit", Pairs: append(append([][2]string{}, lit.Pairs...), p.Pairs...)}
+				if roles[len(roles)-1] != "param" {
+					roles = append(roles, ev.unknownRow("%s: literals on both sides of the object's map", setterOf[fn]))
+				}
+			case p.Kind == "unknown":
+				roles = append(roles, ev.unknownRow("%s: %s", setterOf[fn], p.Text))
+			default:
+				roles = append(roles, ev.unknownRow("%s: a %s map %s", setterOf[fn], p.Kind, p.Name))
+			}
+		}
+		// which source plays which parameter of the merge: source i is copied i-th, and the merge
+		// copies its parameters in the order merge_loops
+		arg := map[string]string{}
+		if len(roles) == 2 && len(loops) == 2 && loops[0] != loops[1] {
+			arg[loops[0]], arg[loops[1]] = roles[0], roles[1]
+			calls[fn] = []string{arg["current"], arg["desired"]}
+		} else {
+			calls[fn] = roles
+		}
+		for i, r := range calls[fn] {
+			if r == "" {
+				calls[fn][i] = ev.unknownRow("%s: cannot relate the %d sources to the merge", setterOf[fn], len(roles))
+			}
+		}
+		if lit != nil {
+			vmaps[fn] = c07NormPairs(lit.Pairs)
+		} else {
+			r := ev.unknownRow("%s: no literal map reaches it", setterOf[fn])
+			vmaps[fn] = [][2]string{{r, r}}
+		}
+		_ = accOf
+	}
+	for _, e := range effects {
+		if e.Setter == "?" {
+			ev.extra = append(ev.extra, ev.unknownRow("setMetadataVisitor: %s", e.Val.Text))
+		}
+	}
+
+	// ---- the force argument at every call site ----
+	var sites [][2]string
+	for k, af := range parsed {
+		for _, d := range af.Decls {
+			fd, ok := d.(*ast.FuncDecl)
+			if !ok || fd.Body == nil {
+				continue
+			}
+			// simple local booleans of the enclosing function
+			locals := map[string]string{}
+			ast.Inspect(fd.Body, func(n ast.Node) bool {
+				if as, ok := n.(*ast.AssignStmt); ok && len(as.Lhs) == 1 && len(as.Rhs) == 1 {
+					if v := c07Ident(as.Rhs[0]); v == "true" || v == "false" {
+						if prev, seen := locals[c07Ident(as.Lhs[0])]; seen && prev != v {
+							locals[c07Ident(as.Lhs[0])] = "?"
+						} else {
+							locals[c07Ident(as.Lhs[0])] = v
+						}
+					}
+				}
+				return true
+			})
+			ast.Inspect(fd.Body, func(n ast.Node) bool {
+				ce, ok := n.(*ast.CallExpr)
+				if !ok {
+					return true
+				}
+				if id, ok := ce.Fun.(*ast.Ident); ok && id.Name == "setMetadataVisitor" && len(ce.Args) == 3 {
+					a := c07Text(ce.Args[2])
+					if v, ok := locals[a]; ok && v != "?" {
+						a = v
+					}
+					sites = append(sites, [2]string{names[k], a})
+				}
+				return true
+			})
+		}
+	}
+
+	// ---- print ----
+	var b strings.Builder
+	var cps [][2]string
+	seenC := map[string]bool{}
+	var refs []string
+	for _, fn := range []string{"mergeLabels", "mergeAnnotations"} {
+		for _, kv := range vmaps[fn] {
+			refs = append(refs, kv[0], kv[1])
+		}
+	}
+	for _, n := range append([]string{"appManagedByLabel", "appManagedByHelm", "helmReleaseNameAnnotation", "helmReleaseNamespaceAnnotation"}, refs...) {
+		referenced := false
+		for _, r := range refs {
+			referenced = referenced || r == n
+		}
+		if v, ok := ev.used[n]; ok && referenced && !seenC[n] {
+			seenC[n] = true
+			cps = append(cps, [2]string{n, v})
+		}
 	}
 	fmt.Fprintf(&b, "Definition stamp_consts : list (string * string) := %s.\n\n", c07CoqPairs(cps))
-
-	// mergeStrStrMaps
-	ms := c07FuncDecl(f, "mergeStrStrMaps")
-	if ms == nil || ms.Body == nil {
-		return "", fmt.Errorf("validate.go: mergeStrStrMaps not found")
-	}
-	var params []string
-	for _, fl := range ms.Type.Params.List {
-		for _, n := range fl.Names {
-			params = append(params, n.Name)
-		}
-	}
-	loops, err := c07MergeLoops(ms)
-	if err != nil {
-		return "", err
-	}
 	fmt.Fprintf(&b, "Definition merge_params : list string := %s.\nDefinition merge_loops : list string := %s.\n\n", hx.CoqStrList(params), hx.CoqStrList(loops))
-
-	// mergeLabels / mergeAnnotations
-	var calls []string
+	var cl, vl []string
 	for _, fn := range []string{"mergeLabels", "mergeAnnotations"} {
-		fd := c07FuncDecl(f, fn)
-		if fd == nil || fd.Body == nil {
-			return "", fmt.Errorf("validate.go: %s not found", fn)
-		}
-		ce := c07FindCall(fd, "mergeStrStrMaps")
-		if ce == nil {
-			return "", fmt.Errorf("validate.go: %s does not call mergeStrStrMaps", fn)
-		}
-		var args []string
-		for _, a := range ce.Args {
-			args = append(args, c07Ident(a))
-		}
-		var fparams []string
-		for _, fl := range fd.Type.Params.List {
-			for _, n := range fl.Names {
-				fparams = append(fparams, n.Name)
-			}
-		}
-		// which argument is the object's own map (read through the accessor), which the parameter
-		var roles []string
-		for _, a := range args {
-			acc := c07AccessorOf(fd, a)
-			switch {
-			case acc != "?":
-				roles = append(roles, "object:"+acc)
-			case len(fparams) == 2 && a == fparams[1]:
-				roles = append(roles, "param")
-			default:
-				roles = append(roles, "?")
-			}
-		}
-		calls = append(calls, hx.CoqPair(hx.CoqStr(fn), hx.CoqStrList(roles)))
+		cl = append(cl, hx.CoqPair(hx.CoqStr(fn), hx.CoqStrList(calls[fn])))
+		vl = append(vl, hx.CoqPair(hx.CoqStr(fn), c07CoqPairs(vmaps[fn])))
 	}
-	fmt.Fprintf(&b, "Definition merge_calls : list (string * list string) := %s.\n\n", hx.CoqList(calls))
-
-	// setMetadataVisitor: the literal maps
-	sv := c07FuncDecl(f, "setMetadataVisitor")
-	if sv == nil || sv.Body == nil {
-		return "", fmt.Errorf("validate.go: setMetadataVisitor not found")
+	fmt.Fprintf(&b, "Definition merge_calls : list (string * list string) := %s.\n\n", hx.CoqList(cl))
+	fmt.Fprintf(&b, "Definition visitor_maps : list (string * list (string * string)) := %s.\n\n", hx.CoqList(vl))
+	fmt.Fprintf(&b, "Definition visitor_force_sites : list (string * string) := %s.\n\n", c07CoqPairs(sites))
+	unknowns := append([]string{}, ev.extra...)
+	cell := func(c string) {
+		if strings.HasPrefix(c, "Unknown \"") {
+			unknowns = append(unknowns, c)
+		}
 	}
-	var lits []string
+	for _, c := range loops {
+		cell(c)
+	}
 	for _, fn := range []string{"mergeLabels", "mergeAnnotations"} {
-		ce := c07FindCall(sv, fn)
-		if ce == nil || len(ce.Args) != 2 {
-			return "", fmt.Errorf("setMetadataVisitor does not call %s(obj, map)", fn)
+		for _, c := range calls[fn] {
+			cell(c)
 		}
-		ps, ok := c07MapLit(ce.Args[1])
-		if !ok {
-			return "", fmt.Errorf("setMetadataVisitor: the map passed to %s is not a literal", fn)
+		for _, kv := range vmaps[fn] {
+			cell(kv[0])
+			cell(kv[1])
 		}
-		lits = append(lits, hx.CoqPair(hx.CoqStr(fn), c07CoqPairs(ps)))
 	}
-	fmt.Fprintf(&b, "Definition visitor_maps : list (string * list (string * string)) := %s.\n\n", hx.CoqList(lits))
-
-	// the force argument at every call site in pkg/action
-	files, _ := filepath.Glob(filepath.Join(repo, "pkg/action/*.go"))
-	sort.Strings(files)
-	var sites [][2]string
-	for _, p := range files {
-		if strings.HasSuffix(p, "_test.go") || strings.HasPrefix(filepath.Base(p), "zz_verif_") {
-			continue
+	for _, st := range sites {
+		if st[1] != "true" && st[1] != "false" {
+			unknowns = append(unknowns, ev.unknownRow("force argument %s in %s", st[1], st[0]))
 		}
-		if _, err := os.Stat(p); err != nil {
-			continue
-		}
-		af, _, err := parseFile(repo, "pkg/action/"+filepath.Base(p))
-		if err != nil {
-			return "", err
-		}
-		ast.Inspect(af, func(n ast.Node) bool {
-			ce, ok := n.(*ast.CallExpr)
-			if !ok {
-				return true
-			}
-			if id, ok := ce.Fun.(*ast.Ident); ok && id.Name == "setMetadataVisitor" && len(ce.Args) == 3 {
-				sites = append(sites, [2]string{filepath.Base(p), c07Ident(ce.Args[2])})
-			}
-			return true
-		})
 	}
-	fmt.Fprintf(&b, "Definition visitor_force_sites : list (string * string) := %s.\n", c07CoqPairs(sites))
+	fmt.Fprintf(&b, "(* constructs the translator could not interpret *)\nDefinition stamp_table_unknowns : list string := %s.\n", hx.CoqStrList(unknowns))
 	return b.String(), nil
 }
